@@ -15,7 +15,12 @@ import model_diagnostics._config as cfgmod
 
 from common import write_case_file, shard
 
-BARE = object()      # the argument is not passed at all: set_config() / config_context()
+class _Bare:
+    def __repr__(self):
+        return "<argument not passed>"
+
+
+BARE = _Bare()      # the argument is not passed at all: set_config() / config_context()
 
 
 def kw(v):
